@@ -6,6 +6,12 @@ From Romea Require Import Num NumR GeodesyModel SrcTie.
 From Romea.gen Require Import RepoConstants SrcFunsC01.
 Local Open Scope R_scope.
 
+(* EarthEllipsoid(A, B): the member initialisers (a, b, e2, e — in initialisation order) are the model's make_ellipsoid,
+   for EVERY numeric dictionary (the two terms are convertible): the executed binary64 instance included. *)
+Lemma tie_makeEllipsoid (T : Type) (N : NumOps T) (A B : T) :
+  src_makeEllipsoid N A B = (let el := make_ellipsoid N A B in (el_a el, el_b el, el_e2 el, el_e el)).
+Proof. reflexivity. Qed.
+
 Lemma tie_toECEF (el : ellipsoid (T:=R)) (g : geodetic (T:=R)) :
   src_toECEF ROps (el_a el) (el_e2 el) (g_alt g) (g_lat g) (g_lon g)
   = (vx (toECEF ROps el g), vy (toECEF ROps el g), vz (toECEF ROps el g)).
